@@ -8,7 +8,7 @@ PROP = "C02"
 LEVEL = "other"
 SELFTEST_PARTS = ("num",)
 WALL_BUDGET = {"quick": 1200, "thorough": 9000}
-OPS = ["create", "write", "delete", "mkdir", "rmdir", "corrupt", "rename_away"]
+OPS = ["create", "write", "delete", "mkdir", "rmdir", "corrupt", "rename_away", "move_out"]
 
 
 class Versions:
@@ -119,6 +119,14 @@ def user_op(lab, vs, side, op):
                 return ("noop", op)
             p.rename(i.oid, root + "/z")
             return ("rename", name, "/z")
+        if op == "move_out":
+            # the file leaves the synchronised folder (it still exists in this account, outside the root)
+            if cur is None or p.info_path("/out/a") or vs.corrupt.get(side) == cur:
+                return ("noop", op)       # (moving the rotted copy away is the user's own removal of a file that no longer holds the version: not judged)
+            if not p.info_path("/out"):
+                p.mkdir("/out")
+            p.rename(i.oid, "/out/a")
+            return ("rename", name, "/out/a")
         if op == "mkdir":
             if i:
                 return ("noop", op)
@@ -218,7 +226,12 @@ def _factory(params, env=None):
                 tl, tr = lab.tree(0), lab.tree(1)
             finally:
                 lab.user_mode = False
-            present = set(v for v in list(tl.values()) + list(tr.values()) if v is not None)
+            lab.user_mode = True
+            try:
+                everywhere = [lab.account(0), lab.account(1)]          # a file moved out of the root still exists in its account
+            finally:
+                lab.user_mode = False
+            present = set(v for t in [tl, tr] + everywhere for v in t.values() if v is not None)
             lost = sorted(v.decode() for v in vs.live if v not in present)
             if lost:
                 raise Fail("content a user wrote and nobody deleted or overwrote no longer exists on either side", lost=lost, local=show(tl), remote=show(tr), symptom="version-lost")
